@@ -18,7 +18,17 @@
      mode <umask decimal> D|F              -> <decimal permission bits of a created object>
      restore <archive bytes> <name> <stored>
                                            -> ok <hex> | err
-   <res> = ok | outside | mkdir:<errno> | open:<errno> | fuel *)
+     writef <cwd> <dir> <nfs> (<path> D|F <data>)* <nfiles> (<name> <data>)* <nfaults> (<entry index> mkdir|open|close|short:<k>)*
+                                           -> <res'> <n> (<path> D|F <data>)* T <m> (O:<path> | W:<path>:<len> | C:<path>)*
+                                              Write with descriptors and injected failures (write_f): the events on
+                                              the created files in program order
+     xmain <cwd> <nfs> (<path> D|F <data>)* <nargs> <arg>* <stdin>
+                                           -> <res''> <n> (<path> D|F <data>)*   (txtar_x_main: flag parsing, file argument or stdin)
+     cmain <nargs> <arg>* <n> (<relpath> <data>)*
+                                           -> <hex of the bytes txtar-c prints> | usage   (txtar_c_main)
+   <res> = ok | outside | mkdir:<errno> | open:<errno> | fuel
+   <res'> = <res> | fault:mkdir | fault:open | fault:write | fault:close
+   <res''> = <res> | read:<errno> | usage *)
 let errno_s = function EEXIST -> "EEXIST" | ENOENT -> "ENOENT" | ENOTDIR -> "ENOTDIR"
   | EISDIR -> "EISDIR" | EINVAL -> "EINVAL"
 let res_s = function
@@ -87,6 +97,29 @@ let rec build_tree (items : (byte list list * byte list option) list) : (byte li
 let rec take_dirs n l acc =
   if n = 0 then List.rev acc else
   match l with d :: r -> take_dirs (n - 1) r (bytes_of_hex d :: acc) | [] -> failwith "bad dirs"
+let fres_s = function
+  | FR r -> res_s r
+  | FFault IoMkdir -> "fault:mkdir" | FFault IoOpen -> "fault:open"
+  | FFault IoWrite -> "fault:write" | FFault IoClose -> "fault:close"
+let xres_s = function
+  | XR r -> res_s r | XReadErr e -> "read:" ^ errno_s e | XUsageExit -> "usage"
+let ev_s = function
+  | EvOpen p -> "O:" ^ hex_of_string (path_string p)
+  | EvWrite (p, n) -> "W:" ^ hex_of_string (path_string p) ^ ":" ^ string_of_int (int_of_nat n)
+  | EvClose p -> "C:" ^ hex_of_string (path_string p)
+let rec take_faults n l acc =
+  if n = 0 then List.rev acc else
+  match l with
+  | i :: k :: r ->
+      let ft = match String.split_on_char ':' k with
+        | ["mkdir"] -> FMkdir | ["open"] -> FOpen | ["close"] -> FClose
+        | ["short"; m] -> FShort (nat_of_int (int_of_string m))
+        | _ -> failwith "bad fault" in
+      take_faults (n - 1) r ((int_of_string i, ft) :: acc)
+  | _ -> failwith "bad faults"
+let rec take_args n l acc =
+  if n = 0 then (List.rev acc, l) else
+  match l with a :: r -> take_args (n - 1) r (bytes_of_hex a :: acc) | [] -> failwith "bad args"
 let () = serve (function
   | ["clean"; p] -> hex_of_bytes (clean (bytes_of_hex p))
   | ["dir"; p] -> hex_of_bytes (dir_of (bytes_of_hex p))
@@ -100,6 +133,36 @@ let () = serve (function
            let (files, _) = take_files (int_of_string nf) r [] in
            let (fs', res) = write (path_of_hex cwd) fs (bytes_of_hex dir) { comment = []; files = files } in
            res_s res ^ " " ^ show_fs fs'
+       | [] -> "BAD-REQUEST")
+  | "writef" :: cwd :: dir :: nfs :: r ->
+      let (fs, r) = take_fs (int_of_string nfs) r [] in
+      (match r with
+       | nf :: r ->
+           let (files, r) = take_files (int_of_string nf) r [] in
+           let faults = (match r with m :: r -> take_faults (int_of_string m) r [] | [] -> []) in
+           let world (i : nat) = (match List.assoc_opt (int_of_nat i) faults with Some ft -> ft | None -> FNone) in
+           let ((fs', res), tr) = write_f world (path_of_hex cwd) fs (bytes_of_hex dir) { comment = []; files = files } in
+           fres_s res ^ " " ^ show_fs fs' ^ " T " ^ string_of_int (List.length tr) ^
+           String.concat "" (List.map (fun e -> " " ^ ev_s e) tr)
+       | [] -> "BAD-REQUEST")
+  | "xmain" :: cwd :: nfs :: r ->
+      let (fs, r) = take_fs (int_of_string nfs) r [] in
+      (match r with
+       | na :: r ->
+           let (args, r) = take_args (int_of_string na) r [] in
+           (match r with
+            | [stdin] ->
+                let (fs', res) = txtar_x_main (path_of_hex cwd) fs args (bytes_of_hex stdin) in
+                xres_s res ^ " " ^ show_fs fs'
+            | _ -> "BAD-REQUEST")
+       | [] -> "BAD-REQUEST")
+  | "cmain" :: na :: r ->
+      let (args, r) = take_args (int_of_string na) r [] in
+      (match r with
+       | n :: r ->
+           let (files, _) = take_files (int_of_string n) r [] in
+           let t = List.map (fun (p, d) -> (split_sep p, d)) files in
+           (match txtar_c_main args t with Some b -> hex_of_bytes b | None -> "usage")
        | [] -> "BAD-REQUEST")
   | "extract" :: cwd :: dir :: nfs :: r ->
       let (fs, r) = take_fs (int_of_string nfs) r [] in
